@@ -31,8 +31,8 @@ static void fmt_val(BufrDescriptor *b)
       {
       case VALTYPE_INT8: case VALTYPE_INT32: fprintf(bvp_out, "i:%d", bufr_value_get_int32(v)); break;
       case VALTYPE_INT64: fprintf(bvp_out, "l:%lld", (long long)bufr_value_get_int64(v)); break;
-      case VALTYPE_FLT32: { float f = bufr_value_get_float(v); uint32_t u; memcpy(&u, &f, 4); fprintf(bvp_out, "f:%08x", u); } break;
-      case VALTYPE_FLT64: { double d = bufr_value_get_double(v); uint64_t u; memcpy(&u, &d, 8); fprintf(bvp_out, "d:%016llx", (unsigned long long)u); } break;
+      case VALTYPE_FLT32: { float f = bufr_value_get_float(v); uint32_t u; memcpy(&u, &f, 4); if (f != f) u = 0x7fc00000u; /* NaN payloads are not modelled */ fprintf(bvp_out, "f:%08x", u); } break;
+      case VALTYPE_FLT64: { double d = bufr_value_get_double(v); uint64_t u; memcpy(&u, &d, 8); if (d != d) u = 0x7ff8000000000000ull; fprintf(bvp_out, "d:%016llx", (unsigned long long)u); } break;
       case VALTYPE_STRING: { int len = 0; const char *s = bufr_value_get_string(v, &len); fputs("s:", bvp_out); bvp_print_hex((const unsigned char *)s, s ? (size_t)len : 0); } break;
       default: fputs("-", bvp_out); return;
       }
